@@ -175,6 +175,7 @@ struct Fd
   bool writeShut = false;
   bool readShut = false;
   int soError = 0;
+  bool lingerAbort = false; // SO_LINGER {1,0}: close() sends RST
   std::deque<int> acceptq; // listener: indices of server-side endpoints not yet accepted
   bool accepted = true;    // server-side endpoint waiting in an accept queue has accepted=false
   std::string txlog;
@@ -496,9 +497,9 @@ void tcpDetach(int idx)
     int p = f.peer;
     Fd &pf = ST->fds[p];
     pf.peer = -1;
-    if (!f.rbuf.empty())
+    if (!f.rbuf.empty() || f.lingerAbort)
     {
-      // closing with unread data: RST (Linux tcp_close)
+      // closing with unread data (or SO_LINGER 0): RST (Linux tcp_close)
       pf.st = T_RESET;
       pf.soError = ECONNRESET;
       pf.rbuf.clear();
@@ -1403,6 +1404,11 @@ extern "C"
     Fd *f = active() ? get(fd) : nullptr;
     if (!f)
       return int(ret_errno(rawsys(SYS_setsockopt, fd, level, name, (long)val, len)));
+    if (level == SOL_SOCKET && name == SO_LINGER && val && len >= sizeof(struct linger))
+    {
+      const struct linger *l = (const struct linger *)val;
+      f->lingerAbort = l->l_onoff && l->l_linger == 0;
+    }
     return 0; // buffer sizes are owned by the harness (simk_cfg / simk_set_rcvbuf)
   }
   int getsockname(int fd, struct sockaddr *sa, socklen_t *len)
